@@ -174,6 +174,19 @@ static int INV(const struct st* s) {
   return 1;
 }
 
+/* scheme type of a scheme name (the order of ada::scheme::type) */
+static unsigned ref_scheme_type(const uint8_t* v, unsigned m) {
+  static const char* const names[7] = {"http", "", "https", "ws", "ftp", "wss", "file"};
+  static const unsigned lens[7] = {4, 0, 5, 2, 3, 3, 4};
+  for (unsigned t = 0; t < 7; t++) {
+    if (t == T_NOT_SPECIAL || lens[t] != m) continue;
+    int eq = 1;
+    for (unsigned i = 0; i < 5; i++) if (i < m && v[i] != (uint8_t)names[t][i]) eq = 0;
+    if (eq) return t;
+  }
+  return T_NOT_SPECIAL;
+}
+
 /* --- observable model of the getters (what the URL API getters must return for a state) */
 struct slice { uint32_t b, e; };   /* [b,e) of buf; b==e: empty */
 static int inv_has_authority(const struct st* s) { return HS(s) >= PE(s) + 2 && PE(s) + 2 <= s->L && s->buf[PE(s)] == '/' && s->buf[PE(s) + 1] == '/'; }
